@@ -10,6 +10,7 @@ import (
 	"go/ast"
 	"go/token"
 	"go/types"
+	"strings"
 )
 
 // cloneExpr copies an expression tree, replacing the nodes for which f returns non-nil
@@ -107,6 +108,7 @@ func (c *m3) sortCall(call *ast.CallExpr) *sortCallInfo {
 		if !ok {
 			return nil
 		}
+		c.sortSite(call, strings.TrimSuffix(strings.TrimPrefix(prefix, "sort_"), "_"), n)
 		return &sortCallInfo{kind: name, target: conv.Args[0], name: prefix + n.Obj().Name()}
 	}
 	return nil
